@@ -43,7 +43,7 @@ def jobs(tier):
 
     def add(cfg, **kw):
         jobs.append(Job(MIR, cfg, pkg_key='sampler',
-                        max_paths=kw.get('max_paths', 8000)))
+                        max_paths=kw.get('max_paths', 8000), split=9))
     for m, end, disc in [([1, 1], [1, 1], False), ([2, 1], [1, 0], True)]:
         for nb in (1, 2):
             add(dict(m=m, explored=True, end_exp=end, discard=disc,
@@ -56,6 +56,25 @@ def jobs(tier):
         add(dict(m=m, explored=False, n_batch=1, K=1, prov=prov,
                  no_new_bound=True, run_discard=bool(prov)))
     add(dict(m=[2], explored=False, n_batch=1, K=1, n_live=1))
+    # many shells: the order of the records in the file
+    jobs.append(Job('harness.sampler_file:write_resume',
+                    dict(m=[1] * 12, explored=True, end_exp=[1] * 12),
+                    pkg_key='sampler'))
+    jobs.append(Job('harness.sampler_file:write_resume',
+                    dict(m=[1] * 12, explored=False, prov=[0, 3]),
+                    pkg_key='sampler'))
+    # the real bound classes through write / read / update (harness of C09)
+    B = {'union': 1, 'nautilus': 2}
+    for h, cfg, blk in [
+            ('io', dict(kind='NeuralBound', d=1, n_net=2), 2),
+            ('io', dict(kind='NautilusBound', d=1, n_neural=1, n_net=1,
+                        members=[[True]], cache=1, unroll=5), B),
+            ('update', dict(kind='NautilusBound', d=1, n_neural=1, n_net=0,
+                            members=[[True]], cache=1, n=1, unroll=8), B),
+            ('update', dict(kind='NautilusBound', d=1, n_neural=1, n_net=0,
+                            members=[[True]], cache=1, n=2, unroll=8), B)]:
+        jobs.append(Job('harness.bound_io:' + h, cfg, pkg_key='bounds',
+                        block=blk, max_paths=6000))
     if thorough:
         add(dict(m=[1, 1], explored=True, end_exp=[1, 0], discard=True,
                  n_batch=1, K=2))
